@@ -540,3 +540,43 @@ fn c10_b_case_iteration() {
     kani::cover!(v[0] && v[1] && !second_fires, "break hides a later true case");
     kani::cover!(!v[0] && second_fires, "a non-firing case before a firing one");
 }
+
+// ---------------------------------------------------------------------------------------
+// The Verus proof of evaluate_boolean ASSUMES this contract of the third-party stack type
+// (contracts/switch.spec.rs, `mod arraydeque`).  Here it is checked on the real crate for the
+// exact instantiation the evaluator uses; the capacity is 8, so lengths 0..=8 are all lengths.
+// ---------------------------------------------------------------------------------------
+#[kani::proof]
+#[kani::unwind(10)]
+fn c10_k_arraydeque_contract() {
+    let mut d: arraydeque::ArrayDeque<OperatorAndEndIndex, MAX_BOOL_EXPR_DEPTH, arraydeque::behavior::Saturating> = Default::default();
+    assert!(d.len() == 0);
+    let n: usize = kani::any();
+    kani::assume(n <= MAX_BOOL_EXPR_DEPTH);
+    // fill with n recognisable elements
+    let mut i = 0;
+    while i < n {
+        let r = d.push_back(OperatorAndEndIndex { op: Or, idx: i });
+        assert!(r.is_ok()); // below capacity: accepted
+        i += 1;
+    }
+    assert!(d.len() == n);
+    let x = OperatorAndEndIndex { op: Not, idx: kani::any() };
+    let r = d.push_back(x);
+    if n < MAX_BOOL_EXPR_DEPTH {
+        // appended at the back, nothing else touched
+        assert!(r.is_ok() && d.len() == n + 1);
+        assert!(d.pop_back() == Some(x));
+    } else {
+        // full: rejected, unchanged
+        assert!(r.is_err() && d.len() == n);
+    }
+    // pop_back returns the elements in reverse order of insertion, then None
+    let mut k = n;
+    while k > 0 {
+        k -= 1;
+        assert!(d.pop_back() == Some(OperatorAndEndIndex { op: Or, idx: k }));
+    }
+    assert!(d.pop_back().is_none() && d.len() == 0);
+    kani::cover!(n == MAX_BOOL_EXPR_DEPTH, "full stack reached");
+}
